@@ -9,6 +9,7 @@ Decided clauses (unit bookkeeping; each is a necessary condition of the identiti
       that is the exported constant
   R5  mask consistency: in each magnet's field function the region where J/M are kept and the region where +-J enters B/H are
       the same mask definition
+  R6  the two excitation attributes are written back to back: no exit (incl. exceptional edges) with only one of them updated
   R4  None-flow: a value returned by a validator called with allow_None=True reaches no arithmetic / norm unguarded
 Not decided: that +J/-J is applied under the right mask (same units either way); pointwise identity at surface points.
 """
@@ -307,8 +308,68 @@ def mask_consistency(repo, res):
     res.require(n >= 4, f"R5: only {n} magnet field functions with J tails found")
 
 
+def paired_excitation_stores(repo, res):
+    """R6: polarization and magnetization are one quantity in two units; a setter that has written one of the two attributes has the
+    other one pending until it is written too - no exit of any kind (exceptional edge of any call, e.g. a warning escalated to an
+    error) while pending."""
+    from flow import BaseClient, function_exits
+    c = repo.cls("BaseMagnet")
+    pair = ("_magnetization", "_polarization")
+    for prop in ("magnetization", "polarization"):
+        fn = c.setters.get(prop)
+        res.require(fn is not None, f"anchor vanished: BaseMagnet.{prop} setter")
+
+        class PC(BaseClient):
+            def call_may_raise(self, call):
+                return True
+
+            def transfer(self, st, S):
+                out = set()
+                for w in S:
+                    w = set(w)
+                    if isinstance(st, ast.Assign):
+                        for t in st.targets:
+                            if isinstance(t, ast.Attribute) and isinstance(t.value, ast.Name) and t.value.id == "self" and t.attr in pair:
+                                other = pair[1 - pair.index(t.attr)]
+                                w.add(("WROTE", t.attr))
+                                if ("PENDING", t.attr) in w:
+                                    w.discard(("PENDING", t.attr))
+                                else:
+                                    w.add(("PENDING", other))
+                    out.add(frozenset(w))
+                return frozenset(out)
+        exits, nst = function_exits(fn, PC(), frozenset({frozenset()}))
+        res.evaluations += len(exits)
+        bad = []
+        for k, worlds, node in exits:
+            for w in worlds:
+                if any(f[0] == "PENDING" for f in w):
+                    bad.append((k, node))
+        # R7: every normal exit of the setter has (re)written both attributes - a setter that returns early keeps whatever the caller
+        # did to the arrays handed out by the getters (e.g. `m.polarization *= 2` edits the stored array in place first)
+        skipped = []
+        for k, worlds, node in exits:
+            if k in ("return", "fallthrough"):
+                for w in worlds:
+                    if {f[1] for f in w if f[0] == "WROTE"} != set(pair):
+                        skipped.append(node)
+        sk = {norm(n) if not isinstance(n, ast.FunctionDef) else "end of function" for n in skipped}
+        res.ob(f"R7:BaseMagnet.{prop}:every normal exit writes both attributes", not sk, {"rule": "R7", "setter": prop, "exits_without_both_writes": sorted(sk)})
+        if sk:
+            res.add(Finding("R7", c.mod.rel, f"BaseMagnet.{prop} (setter)", f"normal exit without writing both attributes at: {sorted(sk)[0]}",
+                            "polarization and magnetization can get out of sync when the stored array was edited in place before the assignment "
+                            "(augmented assignment through the getter)", getattr(skipped[0], "lineno", None)))
+        uniq = {(k, norm(n) if not isinstance(n, ast.FunctionDef) else "end") for k, n in bad}
+        res.ob(f"R6:BaseMagnet.{prop}", not uniq, {"rule": "R6", "setter": prop, "exits_examined": len(exits), "exits_with_one_attribute_written": sorted(x[1] for x in uniq)})
+        if uniq:
+            k, n = bad[0]
+            res.add(Finding("R6", c.mod.rel, f"BaseMagnet.{prop} (setter)", f"exit ({k}) between the two paired stores at: {sorted(x[1] for x in uniq)[0]}",
+                            "the setter can be left with polarization and magnetization out of sync (J != mu0*M), e.g. when a warning is escalated to an error",
+                            getattr(n, "lineno", None)))
+
+
 def run(repo, res, tier):
-    res.rules = ["R1 single mu0 (constant folding + bindings)", "R2 BHJM return dimensions (44 obligations)", "R3 typed setter sync", "R4 None-flow", "R5 one inside-mask for J/M and for +-J"]
+    res.rules = ["R1 single mu0 (constant folding + bindings)", "R2 BHJM return dimensions (44 obligations)", "R3 typed setter sync", "R4 None-flow", "R5 one inside-mask for J/M and for +-J", "R6 paired excitation stores atomic", "R7 every normal setter exit writes both"]
     scan_constants(repo, res)
     results = dim_rules.run_fields()
     res.require(len(results) >= 44, f"only {len(results)} field-function runs (expected >= 44)")
@@ -325,6 +386,7 @@ def run(repo, res, tier):
                             f"expected {r['expected'] or 'identically zero'} for {r['entry']} ({r['kind']})"))
     setter_sync(repo, res)
     mask_consistency(repo, res)
+    paired_excitation_stores(repo, res)
     # R4 = C17/S5 restricted to the excitation setters
     c17.none_flow(repo, res, rule="R4", only_classes=("BaseMagnet", "BaseCurrent", "Dipole"))
     if errors and not res.new_findings():
